@@ -498,6 +498,15 @@ func (s *Storm) fire(r *rand.Rand, c trace.Call, fail, boom bool, holdUs int64, 
 			c.Data["knil"] = np
 			c.Data["kfun"] = func() int64 { return id }
 		}
+		if keys != nil && r.Intn(7) == 0 {
+			// entries the pool does not inject at all (an untyped nil value, an empty key): the request runs
+			// without them and hands its instance back like any other
+			c.Data["knone"] = nil
+			if r.Intn(2) == 0 {
+				c.Data[""] = &Key{Id: id}
+			}
+			s.k.Count("requests_with_entries_that_are_not_injected", 1)
+		}
 	}
 	d.callSeq = atomic.AddInt64(&s.seq, 1)
 	g := goid()
